@@ -1,6 +1,7 @@
 package gen
 
 import (
+	"sort"
 	"strconv"
 	"strings"
 
@@ -184,7 +185,42 @@ func sameField(a, b *Node) bool {
 func (g *PredGen) Atom(depth int) *Node {
 	r := g.R
 	for {
-		switch r.Intn(16) {
+		switch r.Intn(18) {
+		case 17: // BETWEEN with a literal lower bound and an upper bound computed from the pair
+			if g.NoKeyPin || g.Avoid["computed-between-bound"] {
+				continue
+			}
+			// '!' sorts below every key that begins with a letter or digit, key + 'z' above the key:
+			// the clause is evaluable (lower < upper) and true on such pairs; it pins nothing
+			up := []*Node{Bin("+", Key(), Str("z")), Bin("+", Bin("+", Key(), Str("y")), Str("z")), Call("lower", Bin("+", Key(), Str("~")))}[r.Intn(3)]
+			return Between(Key(), Str("!"), up)
+		case 16: // a key list written in descending order, all of it on one side of a key range, joined by |
+			if g.NoKeyPin || len(g.KeyLits) < 4 {
+				continue
+			}
+			ls := append([]string(nil), g.KeyLits...)
+			sort.Strings(ls)
+			if ls[0] == "" {
+				ls = ls[1:]
+			}
+			if len(ls) < 4 {
+				continue
+			}
+			i := r.Intn(len(ls) - 3)
+			a, b, c2, d := ls[i], ls[i+1], ls[i+2], ls[i+3]
+			var in, rng *Node
+			if r.Bool() {
+				in, rng = In(Key(), Str(b), Str(a)), Between(Key(), Str(c2), Str(d))
+			} else {
+				in, rng = In(Key(), Str(d), Str(c2)), Between(Key(), Str(a), Str(b))
+			}
+			if r.Chance(1, 3) {
+				rng = And(Bin(">=", Key(), rng.A[1]), Bin("<=", Key(), rng.A[2]))
+			}
+			if r.Bool() {
+				return Or(in, rng)
+			}
+			return Or(rng, in)
 		case 15: // a prefix test joined with a one-sided range whose bound lies inside the prefix region
 			if g.NoKeyPin || len(g.KeyLits) == 0 {
 				continue
